@@ -17,6 +17,8 @@ LEAF = [
     {"format": "uuid"}, {"format": "date-time"}, {"format": "unregistered-x"},
     {"type": "integer", "minimum": 0, "maximum": 2}, {"type": "string", "minLength": 1, "maxLength": 2},
     {"type": "number", "exclusiveMinimum": 0}, {"type": "integer", "multipleOf": 3},
+    {"properties": {"": {"type": "string"}}}, {"properties": {"": {"type": "string"}, "blank": {"type": "integer"}}},
+    {"type": "object", "title": "E", "properties": {"": {"type": "string"}}, "additionalProperties": False},
 ]
 
 DEFAULTS = [None, False, True, 0, 1, "", "a", [], [1], {}, {"a": 1}, 1.5]
